@@ -34,6 +34,6 @@ For each change i in {{1,2}} deliver, under {outdir}/{pid}-i/ :
   - patch.diff : `git diff` of the change against the worktree's HEAD (library source only; must apply with `git apply` to a clean checkout)
   - a demonstration: a Go test file (demo_test.go, note in meta which package directory it must be copied into) or a small program, that FAILS (or prints a clear wrong result) with the change applied and PASSES without it. Confirm both directions yourself by running it.
   - meta.json : {{"property":"{pid}","title": short name of the change,"what_breaks": one paragraph,"needs_to_manifest": what specific condition triggers it,"demo": how to run the demonstration (exact commands, which dir the test file goes to),"suite_passes": true/false as you observed}}
-Between the two changes, restore the worktree (git -C {wt} checkout -- . ; remove untracked demo files) so each patch is independent and relative to HEAD. Leave the worktree clean (HEAD, no changes) when done.
+Between the two changes, restore the worktree (git -C {wt} checkout -- . ; remove untracked demo files) so each patch is independent and relative to HEAD. Leave the worktree clean (HEAD, no changes) when done. NEVER use `git stash` (the stash is shared between all worktrees of the repository and other people work in sibling worktrees): use `git diff > file`, `git apply`, `git apply -R` and `git checkout -- .` instead.
 
 Final answer: a short summary of the two changes (file, what changed, what it needs to manifest, and that you verified suite-pass + demo-fail/demo-pass). Keep it brief.""")
